@@ -8,8 +8,8 @@ open PV
 
 /-! ## inversion of `runBuf` -/
 
-theorem runBuf_read_inv {α : Type} {n : Int} {k : Bytes → Rd α} {buf : Bytes} {a : α} {rest : Bytes}
-    (h : runBuf (.read n k) buf = .ok a rest) :
+theorem runBuf_read_inv {α : Type} {n : Int} {cr : Bool} {k : Bytes → Rd α} {buf : Bytes} {a : α} {rest : Bytes}
+    (h : runBuf (.read n cr k) buf = .ok a rest) :
     ∃ x y, buf = x ++ y ∧ x.length = n.toNat ∧ runBuf (k x) y = .ok a rest := by
   unfold runBuf at h
   by_cases h0 : n ≤ 0
